@@ -18,7 +18,7 @@ PROPERTY = "C10"
 LEVEL = "fault_enumeration"
 EVALS_FROM_COUNTER = True
 RULE = ("one evaluation = one execution of a CLI task with one fault plan (fault kind - I/O error before/after the call, process "
-        "kill before/after it, KeyboardInterrupt instead of it - at fault point k; "
+        "kill before/after it, KeyboardInterrupt instead of it, I/O error at it and at every later point (full disk) or at the next 2..5 points (burst) - at fault point k; "
         "fault points = every outermost h5py Dataset/Group/Attribute/File mutating call, h5o.copy, file open/close, "
         "pathlib/os rename/unlink/mkdir of the task, numbered in execution order); thorough also crash->restart->crash "
         "sequences.  distinct_nontrivial = distinct (task, fault kind, fault-point label class) triples whose fault "
@@ -27,7 +27,8 @@ RULE = ("one evaluation = one execution of a CLI task with one fault plan (fault
 STATE_MEASURE = "distinct (task, prestate, fault kind, label class, outcome class) tuples"
 PROBES = ["kill_between_last_write_and_rename", "kill_after_rename", "stale_output_survived_crash",
           "stale_temp_present_at_start", "task_raised_on_injected_error", "restart_after_crash_succeeded",
-          "restart_after_crash_failed", "multi_output_partial_rename", "crash_restart_sequence", "task_refuses_prestate", "restart_judged"]
+          "restart_after_crash_failed", "multi_output_partial_rename", "crash_restart_sequence", "task_refuses_prestate", "restart_judged",
+          "partial_leftover_at_output_path", "partial_leftover_untouched_before_start"]
 COMPONENTS = {
     "real": ["dclab.cli.* tasks", "dclab.rtdc_dataset.* (writer, export, copier, fmt_hdf5, fmt_tdms)",
              "h5py/HDF5 + hdf5plugin writing real files on tmpfs", "process death (os._exit in a forked grandchild)",
@@ -47,6 +48,7 @@ TDMS_FIXTURES = ["fmt-tdms_2fl-no-image_2017", "fmt-tdms_shapein-2.0.1-no-image_
 # executions per workload in the quick tier (a join or a tdms conversion costs 0.2-0.5 s each)
 QUICK_CAP = {"compress": 70, "repack": 70, "condense": 50, "split": 50, "join": 26, "tdms2rtdc": 22}
 KINDS = ["kill_before", "kill_after", "err_before", "err_after"]
+PARTIAL_LEFTOVER = b"\x89HDF\r\n\x1a\n" + b"partial-leftover" * 30
 CRUCIAL = ("file.close", "path.rename", "path.unlink", "file.open", "path.replace", "os.", "shutil.", "path.mkdir")
 
 
@@ -63,7 +65,7 @@ def make_trace(seed, tier, idx=None):
     t = {
         "task": task,
         "n": r.choice([5, 9, 17, 33, 60]) if tier == "thorough" else r.choice([5, 9, 17]),
-        "prestate": r.choice(["clean", "clean", "stale_out", "stale_temp", "both"]),
+        "prestate": r.choice(["clean", "clean", "stale_out", "stale_temp", "both"] + (["partial_out"] if task != "split" else [])),
         "chunk_bytes": r.choice([1024 ** 2, 1024 ** 2, 640, 960, 4000]),
         "contour": r.random() < 0.3,
         "trace": r.random() < 0.4,
@@ -200,6 +202,13 @@ class Workload:
                 dst = self.work / rel
                 dst.parent.mkdir(parents=True, exist_ok=True)
                 shutil.copyfile(src, dst)
+        if ps == "partial_out":
+            # something unloadable already sits at the output path (the remains of another program's aborted attempt)
+            for rel in self.outputs:
+                dst = self.work / rel
+                dst.parent.mkdir(parents=True, exist_ok=True)
+                dst.write_bytes(PARTIAL_LEFTOVER)
+            self.ctx.probe("partial_leftover_at_output_path")
         if ps in ("stale_temp", "both"):
             for rel in self.outputs:
                 p = (self.work / rel).with_suffix(".rtdc~")
@@ -300,6 +309,10 @@ def select_plans(labels, tier, r, task=None):
         for k in ks:
             for kind in KINDS:
                 plans.append([{"at": k, "kind": kind}])
+        for k in ks[::max(1, len(ks) // 120)]:
+            plans.append([{"at": k, "kind": "err_persist"}])
+            plans.append([{"at": k, "kind": "err_persist_w"}])
+            plans.append([{"at": k, "kind": r.choice(["err_burst2", "err_burst3", "err_burst5"])}])
         for k in ks[::max(1, len(ks) // 80)]:
             plans.append([{"at": k, "kind": "intr_before"}])
             plans.append([{"at": k, "kind": "intr_before"}, {"at": -1, "kind": "none"}])
@@ -339,6 +352,9 @@ def select_plans(labels, tier, r, task=None):
         # the user interrupts the task (KeyboardInterrupt is not an Exception: clean-up code written with
         # `except Exception` does not run)
         plans.append([{"at": k, "kind": "intr_before"}])
+    for k in r.sample(range(n), min(max(3, cap // 8), n)):
+        # the disk is full from this point on: every later intercepted call fails as well (also those of clean-up code)
+        plans.append([{"at": k, "kind": r.choice(["err_persist", "err_persist_w", "err_burst2", "err_burst2", "err_burst3", "err_burst5"])}])
     for _ in range(2):
         plans.append([{"at": r.randrange(n), "kind": "kill_before"}, {"at": r.randrange(n), "kind": r.choice(KINDS)}])
     # a failed or killed run followed by a fault-free restart of the same task (stale temporary files of the first run)
@@ -434,6 +450,7 @@ def run(trace, ctx):
     else:
         plans, exhaustive = t["faults"], False
     ctx.info["exhaustive"] = exhaustive
+    first_temp_open = min((i for i, l in enumerate(labels) if l.startswith("file.open[") and not l.startswith("file.open[r]") and l.endswith("~")), default=-1)
     items = set()
     allowed_inputs = set(before)
 
@@ -490,6 +507,11 @@ def run(trace, ctx):
                         why = "differs from the complete result: " + "; ".join(h5digest.h5_diff(p, wl.root / "ref" / rel)[:4])
                 except Exception as e:  # not even an HDF5 file
                     why = f"cannot be opened: {type(e).__name__}: {e}"
+                if (not ok and t["prestate"] == "partial_out" and kind != "none" and p.read_bytes() == PARTIAL_LEFTOVER
+                        and k <= first_temp_open):
+                    # the run ended before it began to write: the leftover it found is still what it was
+                    ctx.probe("partial_leftover_untouched_before_start")
+                    ok = True
                 if not ok:
                     ctx.violation("C10.partial_output",
                                   f"{task}: output path '{rel}' exists after {kind} at point {k} ({lab}) [{outcome}] but {why}",
@@ -507,6 +529,8 @@ def run(trace, ctx):
                               sig=sig, trace=vtrace)
             # (4) a swallowed error must not change the result
             if outcome == "completed" and kind.startswith(("err", "intr")) and fired:
+                if kind.startswith("err_persist"):
+                    ctx.probe("persistent_error_swallowed")
                 for rel in outputs:
                     p = wl.work / rel
                     if not p.exists() or h5digest.h5_digest(p) != ref_digest[rel]:
